@@ -86,6 +86,63 @@ def h_name(ctx):
     ctx.cover('name.returns')
 
 
+# ------------------------------------------------------------------------------------------ _eval_Attribute
+def h_attribute(ctx):
+    """`<name>.<attr>` resolves its base name like every name does - scope first, names lower-cased: when the base is a loop variable or := name (whatever it is
+    called, `txn` and `field` included, in whatever letter case) the result is that value's own attribute and the transaction is not consulted; only otherwise
+    `txn.` and `field.` mean the transaction."""
+    sp = base_spec()
+    I = Interp(ctx, sp)
+    scope = fresh_map(ctx, 'scope')
+    DictGet, DictHas = UF('row.get', ObjS, StrS, ObjS), UF('row.has', ObjS, StrS, BoolS)
+    TxnAttr, FieldVal, FieldHas = UF('ctx.attribute', StrS, ObjS), UF('ctx.field.get', StrS, ObjS), UF('ctx.field.has', StrS, BoolS)
+    sp.field_sorts[('contains', 'pyvalue')] = lambda I_, c, item, node: DictHas(c.expr, to_z3(item, StrS))
+    sp.field_sorts[('pyvalue', '[]')] = lambda I_, o, k, node: Obj(DictGet(o.expr, to_z3(k, StrS)), 'pyvalue')
+    sp.models['method:Obj:pyvalue.keys'] = Func(lambda I_, a, k, n: Untracked())
+    sp.models['sorted'] = Func(lambda I_, a, k, n: Untracked())
+    sp.models['ast.dump'] = Func(lambda I_, a, k, n: Untracked())
+    # the transaction side: every attribute of the context is "the transaction's <attr>"
+    tctx = Obj(ctx.fresh('ctx', ObjS), 'tctx')
+    for f_ in ('description', 'amount', 'date', 'month', 'year', 'day', 'weekday', 'source', 'location'):
+        sp.field_sorts[('tctx', f_)] = ('obj', 'txnvalue')
+    fieldmap = Obj(ctx.fresh('ctx.field', ObjS), 'fieldmap')
+    sp.field_sorts[('tctx', 'field')] = ('obj', 'fieldmap')
+    sp.truthy_classes.add('fieldmap')
+    sp.field_sorts[('contains', 'fieldmap')] = lambda I_, c, item, node: FieldHas(to_z3(item, StrS))
+    sp.field_sorts[('fieldmap', '[]')] = lambda I_, o, k, node: Obj(FieldVal(to_z3(k, StrS)), 'txnvalue')
+    sp.models['method:Obj:fieldmap.keys'] = Func(lambda I_, a, k, n: Untracked())
+    sp.models['getattr'] = Func(lambda I_, a, k, n: Obj(UF('tctx.%s' % a[1], ObjS, ObjS)(a[0].expr), 'txnvalue') if isinstance(a[0], Obj) and a[0].cls == 'tctx' and isinstance(a[1], str)
+                                else (_ for _ in ()).throw(Unsupported('getattr')))
+    me = Rec('TransactionEvaluator', {'ctx': tctx, '_scope': scope})
+    base_is_name = bool(ctx.choose(2, 'base_is_a_name'))
+    ident, attr = ctx.fresh('node.value.id', StrS), ctx.fresh('node.attr', StrS)
+    base_node = Rec('Name', {'id': ident}) if base_is_name else Obj(ctx.fresh('node.value', ObjS), 'ast')
+    if not base_is_name:
+        ctx.assume(z3.Not(UF('isinstance_Name', ObjS, BoolS)(base_node.expr)))
+    bval, braises = ctx.fresh('value_of_base', ObjS), ctx.fresh('base.raises', BoolS)
+
+    def m_eval(I_, a, k, n):
+        if I_.ctx.branch(braises, 'base.raises'):
+            raise PyRaise('ExpressionError', (), 'evaluate(base)')
+        return Obj(bval, 'pyvalue')
+    sp.models['self.evaluate'] = Func(m_eval)
+    node = Rec('Attribute', {'value': base_node, 'attr': attr})
+    scoped = z3.IsMember(Lo(ident), scope.dom) if base_is_name else z3.BoolVal(True)       # a base that is no plain name is never the transaction
+    is_txn = z3.And(z3.BoolVal(base_is_name), Lo(ident) == z3.StringVal('txn'), z3.Not(scoped))
+    is_field = z3.And(z3.BoolVal(base_is_name), Lo(ident) == z3.StringVal('field'), z3.Not(scoped))
+    try:
+        r = I.call_function(find_function(TE + '_eval_Attribute'), [node], {}, self_obj=me)
+    except PyRaise as e:
+        ctx.check('C04.attribute.fails_only_with_expression_error', I.is_subclass(e.cls, 'ExpressionError'), 'property')
+        ctx.cover('attribute.raises')
+        return
+    own = isinstance(r, Obj) and r.cls == 'pyvalue'
+    ctx.check('C04.attribute.scoped_base_yields_its_own_attribute_never_the_transactions',
+              z3.Implies(z3.Or(scoped, z3.Not(z3.Or(is_txn, is_field))), z3.And(z3.BoolVal(own), (r.expr == DictGet(bval, Lo(attr))) if own else z3.BoolVal(False))), 'property')
+    ctx.check('C04.attribute.txn_and_field_mean_the_transaction_only_when_not_shadowed', z3.Implies(z3.BoolVal(isinstance(r, Obj) and r.cls == 'txnvalue'), z3.Or(is_txn, is_field)), 'property')
+    ctx.cover('attribute.returns')
+
+
 # ------------------------------------------------------------------------------------------ _eval_NamedExpr
 def h_walrus(ctx):
     sp = base_spec()
@@ -287,6 +344,7 @@ def _defined(ev, dom0, arr0, flags, gv):
 def harnesses(tier):
     return [Harness('MerchantEngine._evaluate_variables', h_engine_variables, ['tally.merchant_engine.MerchantEngine._evaluate_variables'], prune=True),
             Harness('TransactionEvaluator._eval_Name', h_name, [TE + '_eval_Name']),
+            Harness('TransactionEvaluator._eval_Attribute', h_attribute, [TE + '_eval_Attribute'], prune=True),
             Harness('TransactionEvaluator._eval_NamedExpr', h_walrus, [TE + '_eval_NamedExpr']),
             Harness('TransactionEvaluator._eval_comprehension_loop', h_comprehension, [TE + '_eval_comprehension_loop']),
             Harness('TransactionContext.__init__', h_ctx_init, [EP + 'TransactionContext.__init__'])]
